@@ -57,7 +57,7 @@ def nontrivial(c):
         head, det = c.observed.split(" ## ")
         limit = int(c.input.split(";")[1].split("=")[1])
         sizes = [len(d.split("^")[2]) // 2 for d in det.split("|") if d.split("^")[1] == "1"]
-        return c.input.startswith("mode=rodir") or c.input.startswith("mode=longname") or any(1 <= limit < s for s in sizes)
+        return c.input.startswith("mode=rodir") or c.input.startswith("mode=longname") or c.input.startswith("mode=retry") or any(1 <= limit < s for s in sizes)
     except Exception:
         return False
 
@@ -77,7 +77,7 @@ def _unesc(t):
 
 
 def distribution(cases):
-    d = {"strace_runs": 0, "rlimit_runs": 0, "rodir_runs": 0, "longname_runs": 0, "gomaxprocs": {}, "files": 0, "unparseable_files": 0,
+    d = {"strace_runs": 0, "rlimit_runs": 0, "rodir_runs": 0, "longname_runs": 0, "retry_runs": 0, "gomaxprocs": {}, "files": 0, "unparseable_files": 0,
          "final_old": 0, "final_new": 0, "final_other": 0, "exit": {}, "cut_after_ge1_byte": 0,
          "infer_inplace": {"strace_runs": 0, "rlimit_runs": 0, "target_is_training_file": 0, "through_symlink": 0,
                            "command_fails_without_inplace": 0, "target_new": 0, "target_old": 0, "target_other": 0,
@@ -100,7 +100,7 @@ def distribution(cases):
                 di["command_fails_without_inplace"] += tdet[1] != "1"
                 di["new_differs_from_old"] += tdet[1] == "1" and bytes.fromhex(tdet[2]) != _unesc(fl[-1])
             di["cut_after_ge1_byte"] += c.op == "C18.fault" and nontrivial(c)
-        d[{"strace": "strace_runs", "rlimit": "rlimit_runs", "rodir": "rodir_runs", "longname": "longname_runs"}.get(mode, "rlimit_runs")] += 1
+        d[{"strace": "strace_runs", "rlimit": "rlimit_runs", "rodir": "rodir_runs", "longname": "longname_runs", "retry": "retry_runs"}.get(mode, "rlimit_runs")] += 1
         pr = ([f.split("=")[1] for f in c.input.split(";files=")[0].split(";") if f.startswith("procs=")] or ["default"])[0]
         d["gomaxprocs"][pr] = d["gomaxprocs"].get(pr, 0) + 1
         head = (c.observed or "").split(" ## ")[0]
